@@ -63,6 +63,11 @@ func drawName(t *rt.Tape) string {
 // library's parser, so that the expectation is independent of it): intN,
 // uintN, boolN, stringN, structN, [k]uintN.
 func mustType(s string) types.Info {
+	if strings.HasPrefix(s, "[]") {
+		// a slice: its length is not part of the type string (an empty slice has no wires)
+		el := mustType(s[2:])
+		return types.Info{Type: types.TSlice, IsConcrete: true, ElementType: &el}
+	}
 	if strings.HasPrefix(s, "[") {
 		i := strings.IndexByte(s, ']')
 		n, err := strconv.Atoi(s[1:i])
@@ -85,7 +90,9 @@ func mustType(s string) types.Info {
 // typeDesc renders a type structurally (not through Info.String).
 func typeDesc(t types.Info) string {
 	s := fmt.Sprintf("T%d/bits=%d/concrete=%v", t.Type, t.Bits, t.Concrete())
-	if t.ElementType != nil {
+	if t.ElementType != nil && t.Type == types.TSlice {
+		s += fmt.Sprintf("/slice of (%s)", typeDesc(*t.ElementType)) // the files do not record a slice's length
+	} else if t.ElementType != nil {
 		s += fmt.Sprintf("/array=%d of (%s)", t.ArraySize, typeDesc(*t.ElementType))
 	}
 	return s
@@ -131,7 +138,7 @@ func drawArg(t *rt.Tape, bits int, bigHeader bool) circuit.IOArg {
 		rest := bits
 		if t.Choose(rt.SGen, 4) == 0 {
 			// a zero-width member (empty string, empty array): no wires, but part of the signature
-			z := circuit.IOArg{Name: drawName(t), Type: mustType([]string{"uint0", "string0", "[3]uint0", "int0", "[0]uint8", "[2][0]uint8", "[0]int16"}[t.Choose(rt.SGen, 7)])}
+			z := circuit.IOArg{Name: drawName(t), Type: mustType([]string{"uint0", "string0", "[3]uint0", "int0", "[0]uint8", "[2][0]uint8", "[0]int16", "[]uint8", "[]uint0", "[]int0", "[][0]uint8"}[t.Choose(rt.SGen, 11)])}
 			arg.Compound = append(arg.Compound, z)
 			rt.Reach("io.zero-width-member")
 		}
